@@ -10,6 +10,8 @@
   denotes the specification object with the same pool index.
 -/
 import ALV.Lemmas.C03Frame
+import ALV.Lemmas.C03Periodic
+import ALV.Lemmas.C03Counts
 import ALV.Common.Audit
 
 namespace ALV.Props.C03
@@ -174,6 +176,50 @@ theorem thub_uses (xs : List α) (n k : Nat) :
 theorem thub_noniter (f : Nat) (st : St α) (v : α) (n : Nat) :
     step f st (.thub (.const v) n) = some (st, .const v) := rfl
 
+/-- **C03.5a** a positive float count of `take` / `peek` is rounded to the nearest integer,
+x.5 upwards (`rint`); non-positive floats, `-inf` and `nan` give 0; negative ints give 0. -/
+theorem take_count_float (x : Rat) (hx : x > 0) :
+    takeMode (.flt x) = .n (rintPos x).toNat ∧
+      (rintPos x : Rat) - 1/2 ≤ x ∧ x < (rintPos x : Rat) + 1/2 :=
+  ⟨takeMode_flt_pos x hx, rintPos_nearest x⟩
+
+theorem take_count_nonpositive (x : Rat) (hx : x ≤ 0) (n : Int) (hn : n ≤ 0) :
+    takeMode (.flt x) = .n 0 ∧ takeMode (.int n) = .n 0 ∧ takeMode .ninf = .n 0 ∧ takeMode .nan = .n 0 := by
+  refine ⟨?_, ?_, rfl, rfl⟩
+  · have : ¬ x > 0 := by grind
+    simp [takeMode, this]
+  · simp [takeMode]; omega
+
+/-- **C03.5b** a float count of `skip` / `limit` is rounded to the nearest integer, x.5 to the
+even neighbour (Python 3 `round`). -/
+theorem round_count_float (x : Rat) :
+    roundCount (.flt x) = .ok (roundHalfEven x).toNat ∧
+      (roundHalfEven x : Rat) - 1/2 ≤ x ∧ x ≤ (roundHalfEven x : Rat) + 1/2 ∧
+      ((x = (roundHalfEven x : Rat) + 1/2 ∨ x = (roundHalfEven x : Rat) - 1/2) → roundHalfEven x % 2 = 0) :=
+  ⟨rfl, roundHalfEven_nearest x⟩
+
+/-- **C03.6 (periodic sources, partial)** `take(n)` on a bare periodic Stream (`Stream(a, b, c)`,
+`Stream(x)`) returns the first `n` items of the periodic sequence, for every `n`. -/
+theorem periodic_take_partial (per rest : List α) (hp : per ≠ []) (h : Heap α) (n : Nat) :
+    ∃ rest', takeIt 1 h (.cyc per rest) (.int n) =
+      some (h, .cyc per rest', .items ((LSeq.mk rest per).take n)) := by
+  obtain ⟨rest', hr⟩ := takeN_cyc per hp h n rest
+  exact ⟨rest', by simp [takeIt, takeMode, hr]⟩
+
+/-- **C03.6 (prefix lemma of the specification)** a finite read of an eventually periodic
+sequence is a read of the finite list obtained by unrolling enough periods: any finite history
+sees only a finite prefix of a periodic source. -/
+theorem spec_take_prefix (s : LSeq α) {n m : Nat} (hm : n ≤ m) :
+    s.take n = (LSeq.mk (s.unroll m) []).take n := LSeq.take_prefix s hm
+
+-- PENDING: the refinement of whole histories over periodic sources (every source, finite or
+-- not): whenever the model terminates at every step, its observations are those of the list
+-- model.  Today this is covered by the tie (histories with `Stream(1,2,3)` / `Stream(5)` sources,
+-- compared with model and spec on every run) and by `periodic_take_partial`.
+def periodic_refines_PENDING (α : Type) : Prop :=
+  ∀ (ops : List (Op α)) (f : Nat), (∀ o, o ∈ run f (St.empty : St α) ops → o ≠ none) →
+    run f (St.empty : St α) ops = specRun [] ops
+
 /-- non-vacuity: a concrete history with a copy consumed in the other order, a short take -/
 example : run 10 (St.empty : St Int)
     [.new (.list [1, 2, 3]), .copy 0, .take 0 (.int 2), .drain 1, .take 0 (.int 5), .take 0 .none]
@@ -188,6 +234,11 @@ example : run 10 (St.empty : St Int)
     [.thub (.list [4, 5]) 2, .new (.obj 0), .new (.obj 0), .new (.obj 0), .drain 2, .take 1 (.int 1), .drain 1]
     = [some (.new 0), some (.new 1), some (.new 2), some (.err "IndexError"), some (.items [4, 5]),
        some (.items [4]), some (.items [5])] := by decide
+/-- periodic source through the model and the spec -/
+example : run 10 (St.empty : St Int) [.new (.cyc [1, 2, 3]), .take 0 (.int 5), .skip 0 (.int 2), .take 0 (.int 2)]
+    = [some (.new 0), some (.items [1, 2, 3, 1, 2]), some .unit, some (.items [2, 3])] := by decide
+example : specRun ([] : SPool Int) [.new (.cyc [1, 2, 3]), .take 0 (.int 5), .skip 0 (.int 2), .take 0 (.int 2)]
+    = [some (.new 0), some (.items [1, 2, 3, 1, 2]), some .unit, some (.items [2, 3])] := by decide
 example : (Op.new (.list [1, 2, 3]) : Op Int).Fin ∧ (Op.thub (.obj 0) 2 : Op Int).Fin := ⟨trivial, trivial⟩
 /-- the counts: `rint` rounds x.5 away from zero, `round` to even -/
 example : takeMode (.flt (5/2)) = .n 3 ∧ roundHalfEven (5/2) = 2 ∧ roundHalfEven (7/2) = 4
